@@ -15,3 +15,15 @@ package orbiter
 //@ func ProvideModule(in) (out)
 //@   requires[inv] in.Config != nil
 //@   ensures[C10] out.Keeper != nil && out.Keeper.authority == bech32(modOrBech32(in.Config.Authority))
+//   ... and the module it returns serves that keeper
+//@   ensures[C10] istype(out.Module, "github.com/noble-assets/orbiter/v2.AppModule") && cast(out.Module, "github.com/noble-assets/orbiter/v2.AppModule").keeper == out.Keeper
+
+// RegisterServices: the message services are registered first, with the message servers of the module's own
+// keeper (see keeper.RegisterMsgServers); the query services follow.
+//@ func (m AppModule) RegisterServices(cfg)
+//@   requires[inv] m.keeper != nil
+//@   modifies reg_n, reg_impl
+//@   ensures[C10] reg_n == old(reg_n) + 8
+//@   ensures[C10] istype(reg_impl[old(reg_n)], "keeper/component/forwarder.msgServer") && fwdSrv(reg_impl[old(reg_n)]).Authorizer == box(m.keeper, "*github.com/noble-assets/orbiter/v2/keeper.Keeper") && fwdSrv(reg_impl[old(reg_n)]).Forwarder == m.keeper.forwarder
+//@   ensures[C10] istype(reg_impl[old(reg_n) + 1], "keeper/component/executor.msgServer") && excSrv(reg_impl[old(reg_n) + 1]).Authorizer == box(m.keeper, "*github.com/noble-assets/orbiter/v2/keeper.Keeper") && excSrv(reg_impl[old(reg_n) + 1]).Executor == m.keeper.executor
+//@   ensures[C10] istype(reg_impl[old(reg_n) + 2], "keeper/component/adapter.msgServer") && adpSrv(reg_impl[old(reg_n) + 2]).Authorizer == box(m.keeper, "*github.com/noble-assets/orbiter/v2/keeper.Keeper") && adpSrv(reg_impl[old(reg_n) + 2]).Adapter == m.keeper.adapter
